@@ -1,12 +1,20 @@
 (* Transcript interface for the connection pool (C11).
-     pool <case id, ignored> <MaxConns> <lifetime> <idletime> (<op> <op> ...)
+     pool <case id, ignored> <MaxConns> <MinConns> <lifetime> <idletime> (<t|f> ...) (<op> <op> ...)
+       the first list: the outcomes of the dials of New (createIdleResources), as far as New got;
        op ::= (acq <t|f dial succeeds>) | (rel <h>) | (do <h> <ok|exc|cut|cancel> <t|f client closed afterwards>)
-            | (ping <h>) | (pdo <t|f> <kind> <t|f>) | (pping <t|f>) | (tick) | (adv <n>) | (close)
+            | (ping <h>) | (pdo <t|f> <kind> <t|f>) | (pping <t|f>) | (tick <k>) | (spawn <t|f>) | (adv <n>) | (close)
    Handles are numbered in the order of acq / pdo / pping operations.  The harness waits, after every
    operation, until the goroutines puddle started have finished; the glue issues the corresponding
-   PFinish steps ([finish_all]).  (tick) is PTickBegin followed by PTickStep until the health check is done.
-     ->  ok (<ok|err|nohandle|-> ((<h> <resource>) ...) (<total> <acquired> <idle>) (<closed resource> ...)) ...
-         one group per operation other than adv; `crash` in place of a group ends the line when puddle would panic. *)
+   PFinish steps ([finish_all]).
+   (tick k) is a whole tick as the harness saw it: PTickBegin, PTickStep until the idle pass is done, then
+   checkMinConns, which started k creations (the harness counts the dials that arrive at its gate).  How many
+   it starts depends on how many of the Destroy goroutines of this tick had finished when it read Stat(): the
+   glue lets them finish one by one ([finish_until]) until MinConns - Total reaches k, then PCheckMin, the
+   remaining PFinish steps and one PSpawnBegin per goroutine.  A k the model cannot produce shows as a different
+   Stat in this group.  (spawn d) is PSpawnEnd 0 d: the oldest dial held at the gate returns.
+     ->  ok (<ok|err|nohandle|-> ((<h> <resource>) ...) (<total> <acquired> <idle> <constructing>) (<closed resource> ...)) ...
+         the first group is New's (err: the pool New closed, after its destructors); then one group per operation
+         other than adv; `crash` in place of a group ends the line when puddle would panic. *)
 From CH Require Import model.Sx model.Pool.
 Open Scope nat_scope.
 
@@ -16,19 +24,20 @@ Definition get_kind (x : sx) : option dokind :=
   if is_sym x "ok" then Some DOk else if is_sym x "exc" then Some DExc
   else if is_sym x "cut" then Some DCut else if is_sym x "cancel" then Some DCancel else None.
 
-Inductive item := IOp (o : pop) | ITick.
+Inductive item := IOp (o : pop) | ITick (k : nat).
 
 Definition get_item (x : sx) : option item :=
   match x with
   | L [k] =>
-    if is_sym k "tick" then Some ITick
-    else if is_sym k "close" then Some (IOp PClose) else None
+    if is_sym k "close" then Some (IOp PClose) else None
   | L [k; a] =>
     if is_sym k "acq" then option_map (fun d => IOp (PAcquire d)) (get_abool a)
     else if is_sym k "rel" then option_map (fun h => IOp (PRelease h)) (get_nat a)
     else if is_sym k "ping" then option_map (fun h => IOp (PPing h)) (get_nat a)
     else if is_sym k "pping" then option_map (fun d => IOp (PPoolPing d)) (get_abool a)
     else if is_sym k "adv" then option_map (fun n => IOp (PAdvance n)) (get_an a)
+    else if is_sym k "tick" then option_map ITick (get_nat a)
+    else if is_sym k "spawn" then option_map (fun d => IOp (PSpawnEnd 0 d)) (get_abool a)
     else None
   | L [k; a; b; c] =>
     if is_sym k "do" then
@@ -45,10 +54,26 @@ Definition get_item (x : sx) : option item :=
   | _ => None
   end.
 
+(* Destroy goroutines end, lowest connection first, until checkMinConns would start k creations *)
+Fixpoint finish_until (k : nat) (rs : list nat) (p : pool) : pool :=
+  match rs with
+  | [] => p
+  | r :: rs' => if k <=? c_min (p_cfg p) - total p then p else finish_until k rs' (pd_finish p r)
+  end.
+
+Definition do_tick (k : nat) (p : pool) : option pool :=
+  match tick_pass p with
+  | None => None
+  | Some p1 =>
+    let p2 := finish_until k (seq 0 (length (ress p1))) p1 in
+    let p3 := finish_all (check_min p2) in
+    Some (spawn_begin_all (spawned p3) p3)
+  end.
+
 Definition run_item (p : pool) (i : item) : option (pool * obs) :=
   match i with
   | IOp o => match pstep p o with POk p' ob => Some (finish_all p', ob) | PCrash => None end
-  | ITick => match tick_full p with Some p' => Some (finish_all p', ONone) | None => None end
+  | ITick k => match do_tick k p with Some p' => Some (p', ONone) | None => None end
   end.
 
 Definition pr_obs (o : obs) : sx :=
@@ -68,7 +93,8 @@ Fixpoint pr_closed (i : nat) (l : list resrc) : list sx :=
 
 Definition pr_state (p : pool) (o : obs) : sx :=
   L [pr_obs o; L (pr_handles 0 (handles p));
-     L [an (N.of_nat (total p)); an (N.of_nat (stat_acquired p)); an (N.of_nat (stat_idle p))];
+     L [an (N.of_nat (total p)); an (N.of_nat (stat_acquired p)); an (N.of_nat (stat_idle p));
+        an (N.of_nat (stat_constructing p))];
      L (pr_closed 0 (ress p))].
 
 Fixpoint run_items (p : pool) (l : list item) : list sx :=
@@ -87,12 +113,14 @@ Fixpoint run_items (p : pool) (l : list item) : list sx :=
 
 Definition run_pool (xs : list sx) : option (list sx) :=
   match xs with
-  | [op; _; m; lt; it; L ops] =>
+  | [op; _; m; mn; lt; it; L ds; L ops] =>
     if is_sym op "pool" then
-      match get_nat m, get_an lt, get_an it, map_opt get_item ops with
-      | Some m, Some lt, Some it, Some ops =>
-        Some (asym "ok" :: run_items (pinit (mkCfg m lt it)) ops)
-      | _, _, _, _ => None
+      match get_nat m, get_nat mn, get_an lt, get_an it, map_opt get_abool ds, map_opt get_item ops with
+      | Some m, Some mn, Some lt, Some it, Some ds, Some ops =>
+        let c := mkCfg m mn lt it in
+        let p0 := finish_all (pnew c ds) in
+        Some (asym "ok" :: pr_state p0 (if pnew_ok c ds then OOk else OErr) :: run_items p0 ops)
+      | _, _, _, _, _, _ => None
       end
     else None
   | _ => None
